@@ -42,6 +42,7 @@ def run_history(ctx, init, sessions, src, rename=None):
 # the same histories with subject names that contain one another (the canonical names of the model stay s1.. in the record)
 CONTAINED = {"s1": "case_10", "s2": "case_1", "s 3": "case", "s-4": "e_1"}
 CONTAINED2 = {"s1": "10", "s2": "1", "s 3": "0", "s-4": "subject"}
+QUOTED = {"s1": 'sub-01 "repeat scan"', "s2": 'sub-02 5" coil', "s 3": "sub-03", "s-4": '"sub-04"'}
 
 
 def _run_history(ctx, init, sessions, src, rename=None):
@@ -448,7 +449,7 @@ def run(ctx):
                                     {"subjects": ["s 3", "s-4", "s2"], "schedule": [2] * 6, "crash_after": cp},
                                     {"subjects": ["s 3", "s-4", "s2"], "schedule": [], "crash_after": None}], f"emptycells.{cp}")
     # subject names contained in one another, the longer one finished (or claimed) first; one session and kill + restart
-    for ren in (CONTAINED, CONTAINED2):
+    for ren in (CONTAINED, CONTAINED2, QUOTED):
         for init in ("absent", "rows", "rows+buffer"):
             run_history(ctx, init, [{"subjects": ["s1", "s2", "s 3", "s-4"], "schedule": [0] * 12 + [1] * 12 + [2] * 12 + [3] * 12, "crash_after": None}],
                         f"contained.{init}", rename=ren)
